@@ -202,8 +202,10 @@ def nearest_shortest_queue_ranking(
     # find the lowest nearest_shortest_queue distance metric
     # amongst the possible on-shift charging options at this station
     initial: Tuple[Optional[str], float] = (None, max_dist)
+    # the charger ids are a frozenset: rank them in sorted order so that a tie between charger types
+    # is always broken the same way, whatever the interpreter's hash seed
     best_charger_id, best_charger_rank = ft.reduce(
-        _inner, station.on_shift_access_chargers, initial
+        _inner, sorted(station.on_shift_access_chargers), initial
     )
 
     return (
